@@ -112,7 +112,7 @@ func one(c *fw.Ctx, src string, inputs [][]ugo.Object) {
 		}
 		if want.Key() != got.Key() || fmt.Sprint(want.Trace) != fmt.Sprint(got.Trace) {
 			got2 := run.Bytecode(dec, run.Options{Args: in})
-			if got2.Key() != got.Key() {
+			if want2 := run.Bytecode(bc, run.Options{Args: in}); got2.Key() == want2.Key() && fmt.Sprint(want2.Trace) == fmt.Sprint(got2.Trace) { // a second pair of runs agrees
 				c.Infra("unstable outcome for %s", src)
 				return
 			}
